@@ -1,0 +1,7 @@
+//go:build !verif
+// +build !verif
+
+package cache
+
+// verifPoint is a no-op unless built with tag "verif".
+func verifPoint(string, interface{}) {}
